@@ -32,6 +32,9 @@ ASSUMPTIONS = ["Python literal grammars PYINT/PYFLOAT transcribed from the langu
                "Python's own evaluation (ast.literal_eval) of a spelling is the reference value"]
 
 ENV = Environment()
+# literal values must not depend on lexer configuration: the same checks run under these environments
+ENVS = [dict(), dict(newline_sequence="\r\n"), dict(newline_sequence="\r", trim_blocks=True, lstrip_blocks=True, keep_trailing_newline=True),
+        dict(variable_start_string="${", variable_end_string="}", block_start_string="<%", block_end_string="%>", line_statement_prefix="#", autoescape=True)]
 P = {}
 
 # Python's integer and float literal grammar (ASCII only), as regexes
@@ -41,8 +44,9 @@ PYFLOAT = rf"(({_D})?\.{_D}|{_D}\.)([eE][+-]?{_D})?|{_D}[eE][+-]?{_D}"
 
 
 def setup(param):
-    global P
+    global P, ENV
     P = dict(param or {})
+    ENV = Environment(**ENVS[P.get("envk", 0) % len(ENVS)])
 
 
 # ---------------------------------------------------------------- E2
@@ -182,6 +186,56 @@ def float_lit_ok(ip: List[int], fp: List[int], ep: List[int], ui: bool, ue: bool
         return _same_as_python(lit)
 
 
+MANT = ["1", "9.9", "0.1", "1.7976931348623157", "1.7976931348623159", "4.9", "2.4", "0", "0.0", "00.5", "12_3.4_5"]
+EXPS = [0, 1, 22, 23, 307, 308, 309, 323, 324, 325, 400, 999, 1_000_000]
+CTX = ["@", "-@", "[@, 1]", "(@, @)", "{'a': @}", "@ - @", "@ * 0", "@ > 1", "@ == @", "[-@][0]", "(@ + 1) // 1 if @ < 2 else 0"]
+
+
+def float_mag_ok(m: int, e: int, sg: int, c: int, up: bool) -> bool:
+    """
+    pre: 0 <= m < len(MANT) and 0 <= e < len(EXPS) and 0 <= sg <= 2 and c == 0
+    post: _
+    """
+    mi = pick(m, len(MANT))
+    ei = pick(e, len(EXPS))
+    si = pick(sg, 3)
+    ci = P.get("ctx", 0)
+    up = bool(up)
+    with NoTracing():
+        lit = MANT[mi] + ("E" if up else "e") + ["", "+", "-"][si] + str(EXPS[ei])
+        if MANT[mi].startswith("00"):
+            lit = MANT[mi]   # leading zeros: only valid as a float without exponent in both languages
+        src = CTX[ci].replace("@", lit)
+        try:
+            py = ("ok", eval(src, {"__builtins__": {}}, {}))
+        except Exception as ex:
+            py = ("exc", type(ex).__name__)
+        outs = []
+        for how in (0, 1):
+            try:
+                if how == 0:
+                    v = ENV.compile_expression(src)()
+                else:
+                    box = []
+                    vs, ve = ENV.variable_start_string, ENV.variable_end_string
+                    bs, be = ENV.block_start_string, ENV.block_end_string
+                    ENV.from_string(f"{bs} set v = {src} {be}{vs} put(v) {ve}").render(put=lambda x: box.append(x) or "")
+                    v = box[0]
+                outs.append(("ok", v))
+            except TemplateSyntaxError:
+                outs.append(("syntax", None))
+            except Exception as ex:
+                outs.append(("exc", type(ex).__name__))
+        for o in outs:
+            if o[0] != py[0]:
+                return False
+            if o[0] == "ok" and not (type(o[1]) is type(py[1]) and (repr(o[1]) == repr(py[1]))):
+                return False
+            if o[0] == "exc" and o[1] != py[1]:
+                return False
+        return True
+
+
 # ---------------------------------------------------------------- mode B strings
 PIECES = ["a", "\\n", "\\\\", "\\'", '\\"', "\\x41", "\\u00e9", "\\d", "é", "'", '"', " ", "\\N{DASH}", "\\101", "%", "\\t", "{{", "\\", "\\U0001F600", "\n"]
 
@@ -219,7 +273,19 @@ def str_lit_ok(ps: List[int], q: int, ps2: List[int], q2: int) -> bool:
             return True
         if _backslash_nonascii(lit):
             return True  # recorded known finding (see known_findings.json), checked by known_backslash_nonascii_ok
-        return jv == py
+        if jv != py:
+            return False
+        # the same literal in a template: as an output expression and assigned first (constant vs variable code path)
+        vs, ve = ENV.variable_start_string, ENV.variable_end_string
+        bs, be = ENV.block_start_string, ENV.block_end_string
+        if ve in lit or be in lit or vs in lit or bs in lit:
+            return True
+        try:
+            r1 = ENV.from_string(f"{vs} ({lit})|list|length {ve}").render()
+            r2 = ENV.from_string(f"{bs} set v = {lit} {be}{vs} v|list|length {ve}:{vs} v == w {ve}").render(w=py[1])
+        except TemplateSyntaxError:
+            return False
+        return r1 == str(len(py[1])) and r2 == f"{len(py[1])}:True"
 
 
 def _backslash_nonascii(lit):
@@ -302,12 +368,21 @@ def conditions(tier, seed):
                         witnesses=[[[1, 0], [1], [], True, False], [[1], [], [1], False, True], [[], [0, 1], [0], False, False], [[1, 0, 0], [1, 1, 1], [], True, True]],
                         bounds=f"<= {mf} integer digits, <= {mf} fraction digits, <= 1(+1) exponent digits, digits from {FD}, underscores in every gap or none"))
     mp = 3 if th else 2
-    out.append(Cond("string literals from escape table", "str_lit_ok", mode="B", param={"maxp": mp, "maxp2": 0}, timeout=to * 2,
-                    witnesses=[[[2, 7], 0, [], 2], [[0, 3], 0, [], 2], [[5, 6], 1, [], 2]],
-                    bounds=f"one literal of <= {mp} pieces from {len(PIECES)} characters/escape sequences, both quotes"))
-    out.append(Cond("adjacent string literals", "str_lit_ok", mode="B", param={"maxp": 1, "maxp2": 1}, timeout=to * 2,
-                    witnesses=[[[2], 0, [7], 1], [[0], 1, [1], 0]],
-                    bounds=f"two adjacent literals of <= 1 piece each from the table, every quote combination"))
+    for envk in range(len(ENVS)):
+        for ci in range(len(CTX)):
+            if (ci + seed) % len(ENVS) != envk and not th:
+                continue
+            out.append(Cond(f"float magnitudes in '{CTX[ci]}'[env {envk}]", "float_mag_ok", mode="B", param={"envk": envk, "ctx": ci}, timeout=to * 2,
+                            witnesses=[[0, 11, 0, 0, False], [3, 7, 1, 0, True], [5, 9, 2, 0, False], [9, 0, 0, 0, False]],
+                            bounds=f"{len(MANT)} mantissas x {len(EXPS)} exponents (incl. overflow to inf, underflow to 0, denormals) x 3 exponent signs in one expression context, through compile_expression and an assignment in a template; oracle: Python's evaluation of the same text"))
+        if not th and envk and envk != 1 + seed % (len(ENVS) - 1):
+            continue
+        out.append(Cond(f"string literals from escape table[env {envk}]", "str_lit_ok", mode="B", param={"maxp": mp if envk == 0 else 2, "maxp2": 0, "envk": envk}, timeout=to * 2,
+                        witnesses=[[[2, 7], 0, [], 2], [[0, 3], 0, [], 2], [[5, 6], 1, [], 2], [[0, 1], 0, [], 2]],
+                        bounds=f"one literal of <= {mp if envk == 0 else 2} pieces from {len(PIECES)} characters/escape sequences, both quotes; value through compile_expression, as output constant and as assigned variable"))
+        out.append(Cond(f"adjacent string literals[env {envk}]", "str_lit_ok", mode="B", param={"maxp": 1, "maxp2": 1, "envk": envk}, timeout=to * 2,
+                        witnesses=[[[2], 0, [7], 1], [[0], 1, [1], 0], [[1], 1, [1], 1]],
+                        bounds=f"two adjacent literals of <= 1 piece each from the table, every quote combination"))
     out.append(Cond("repr(value) round trip", "repr_roundtrip_ok", mode="B", param={}, timeout=to,
                     witnesses=[[0], [5], [15]], bounds=f"{len(VALUES)} ints/floats/strings written with repr()"))
     return out
